@@ -95,6 +95,21 @@ def structural(fmt, text):
         if t in DELIMITERS[fmt]:
             out.append(("delimiter-lost", i, join(toks[:i] + toks[i + 1:])))
             out.append(("delimiter-doubled", i, join(toks[:i + 1] + toks[i:])))
+    if fmt == "edif":
+        # whatever follows the design construct (comments, user data) is read like the rest of the file: a construct keyword
+        # replaced by an unsupported one there is as unsupported as anywhere else
+        ds = next((k for k in range(1, len(toks)) if toks[k].lower() == "design" and toks[k - 1] == "("), None)
+        if ds is not None:
+            depth_, de = 0, None
+            for k in range(ds - 1, len(toks)):
+                depth_ += 1 if toks[k] == "(" else (-1 if toks[k] == ")" else 0)
+                if depth_ == 0:
+                    de = k
+                    break
+            if de is not None:
+                for k in range(de + 1, len(toks) - 1):
+                    if toks[k] == "(" and toks[k + 1] not in "()":
+                        out.append(("unsupported:keyword-after-design", k + 1, join(toks[:k + 1] + ["viewMap"] + toks[k + 2:])))
     if fmt == "verilog":
         # an instantiation retargeted to ANOTHER declared module: the hierarchy changes shape (possibly into a cycle that does
         # not even contain the module being read) while every token stays well-formed
